@@ -37,9 +37,10 @@ PROPOSED_FINDINGS = [
                       "t = Track(MidiInstrument())\nt + b\n"
                       "d = tempfile.mkdtemp()\nf = os.path.join(d, 'w.mid')\nmidi_file_out.write_Track(f, t)\n"
                       "data = open(f, 'rb').read()\nos.remove(f)\nos.rmdir(d)\n"
-                      "i = data.index(b'\\x91\\x3c\\x40')\nobserved = data[i - 7:i + 3].hex()\n"
-                      "holds = data[i - 7:i + 3] == bytes.fromhex('48b1000100c10100913c40')[1:] or "
-                      "data.count(b'\\x48') == 3\n"),
+                      "i = data.index(b'\\xff\\x59\\x02') + 5\nj = data.index(b'\\x91\\x3c\\x40')\n"
+                      "observed = data[i:j + 3].hex()\n"
+                      "# [dt] Bn cc vv [dt] Cn pp [dt] 9n kk vv: the quarter rest (72 ticks) must be spent once\n"
+                      "holds = j == i + 8 and data[i] + data[i + 4] + data[i + 7] == 72\n"),
     dict(property="C16", id="midi-bank-select-args-swapped", function="mingus.midi.midi_track.MidiTrack.select_bank",
          clause="bank-select-and-program-change-on-first-note-channel",
          region="track.instrument has instrument_nr and the first note's channel != 0",
@@ -60,9 +61,9 @@ PROPOSED_FINDINGS = [
                       "d = tempfile.mkdtemp()\nf = os.path.join(d, 'w.mid')\n"
                       "midi_file_out.write_Track(f, t, repeat=1)\n"
                       "data = open(f, 'rb').read()\nos.remove(f)\nos.rmdir(d)\n"
-                      "i = data.index(b'\\x81\\x3c\\x40')\nj = data.index(b'\\xff\\x58', i)\n"
-                      "observed = data[i + 3:j + 1].hex()\n"
-                      "holds = b'\\x48\\xff\\x58' in data[i:] or b'\\x48\\x91\\x3c' in data[i:]\n"),
+                      "k = data.index(b'\\xff\\x58', data.index(b'\\x81\\x3c\\x40'))\n"
+                      "observed = data[k - 1]   # delta time of the time signature that opens the repetition\n"
+                      "holds = observed == 72\n"),
 ]
 
 MAJORS = ["Cb", "Gb", "Db", "Ab", "Eb", "Bb", "F", "C", "G", "D", "A", "E", "B", "F#", "C#"]
@@ -88,7 +89,11 @@ def key_signature(key):
     return pos, (1 if minor else 0)
 
 
-def entry_ticks(value):
+def entry_ticks(value, arith="exact"):
+    """round(288/value): on the exact quotient, or (arith == "float") in double arithmetic.  The two differ only for
+    float values whose quotient is within an ulp of a tie (e.g. 48/1.75 -> 10.5); either reading is accepted."""
+    if arith == "float":
+        return int(round(288 / value))
     return int(round(Fraction(288) / Fraction(value)))
 
 
@@ -129,7 +134,7 @@ def note_events(t0, t1, notes, out):
         out[(t1, "off", p, ch, vel)] += 1
 
 
-def model_track(spec, repeat, whole_track, quirks=()):
+def model_track(spec, repeat, whole_track, quirks=(), arith="exact"):
     """expected decoded content of one track chunk.  spec: track spec (whole_track) or a dict with only 'bars'.
     quirks: names of the known deviations to imitate (used only to attribute a mismatch to a known finding)."""
     ev = Counter()
@@ -149,7 +154,7 @@ def model_track(spec, repeat, whole_track, quirks=()):
             tsig.append(bar["meter"])
             ksig.append(key_signature(bar["key"]))
             for value, notes in bar["entries"]:
-                d = entry_ticks(value)
+                d = entry_ticks(value, arith)
                 if notes:
                     if pending_instr:
                         if "triple" in quirks:
@@ -239,8 +244,12 @@ def check_written(cx, group, kind, obj, recipe, bpm, repeat):
                % (len(s.tracks), len(specs)), inputs)
         return s
     for ti, (trk, spec) in enumerate(zip(s.tracks, specs)):
-        m = model_track(spec, repeat, whole)
         obs = observed_notes(trk)
+        m = model_track(spec, repeat, whole)
+        if obs != m["notes"]:
+            m2 = model_track(spec, repeat, whole, (), "float")
+            if obs == m2["notes"]:
+                m = m2
         # ---- notes
         if obs != m["notes"]:
             strip = lambda c: Counter((k[1], k[2], k[3], k[4]) for k in c.elements())
@@ -264,7 +273,7 @@ def check_written(cx, group, kind, obj, recipe, bpm, repeat):
                             continue
                         if "droptrail" in q and repeat < 1:
                             continue
-                        if model_track(spec, repeat, whole, q)["notes"] == obs:
+                        if any(model_track(spec, repeat, whole, q, a)["notes"] == obs for a in ("exact", "float")):
                             finding = fid
                             break
                 if finding:
@@ -390,7 +399,7 @@ def mk_composition(rc):
 
 
 VALUES_INTEGRAL = [1, 2, 3, 4, 6, 8, 9, 12, 16, 18, 24, 32, 36, 48, 72, 96, 144, 288]
-VALUES_ROUNDING = [5, 7, 10, 11, 13, 20, 28, 64, 128, 192, 100, 7.5, 4 / 1.5, 8 / 1.5, 4 / 1.75, 2 / 1.5, 16 / 1.5,
+VALUES_ROUNDING = [48 / 1.75, 5, 7, 10, 11, 13, 20, 28, 64, 128, 192, 100, 7.5, 4 / 1.5, 8 / 1.5, 4 / 1.75, 2 / 1.5, 16 / 1.5,
                    3.5, 2.5, 1.5, 576, 577, 1000]
 METERS = [(4, 4), (3, 4), (2, 4), (6, 8), (5, 4), (7, 8), (12, 8), (2, 2), (3, 2), (9, 8), (1, 1), (4, 16), (1, 4),
           (3, 8), (6, 4), (13, 16), (2, 1), (5, 8)]
@@ -448,13 +457,16 @@ def run(tier, seed):
     try:
         cx = Ctx(R, tmp)
         _vlq(R, MidiTrack, rnd, quick)
+        _key_events(R, MidiTrack)
         _run(cx, rnd, quick)
     finally:
         shutil.rmtree(tmp, ignore_errors=True)
     R.assumptions.append("containers are built through the public constructors / place_notes; the model reads their "
                          "plain data (bar.bar, note.name/octave/channel/velocity, bar.key.key, bar.meter, track.name, "
                          "instrument.instrument_nr)")
-    R.assumptions.append("round(288/value) is taken as Python's round (ties to even) of the exact quotient")
+    R.assumptions.append("round(288/value) is taken as Python's round (ties to even) of the exact quotient; for a float "
+                         "value whose quotient lies within an ulp of a tie, round(288/value) in double arithmetic is "
+                         "accepted as well")
     R.assumptions.append("when the first sounding container mixes channels, any of its channels is accepted as 'the "
                          "first note's channel'; values of bank select, and the tick of meta / program events are not "
                          "constrained by the statement and not checked; note containers carrying a .bpm attribute and "
@@ -468,7 +480,7 @@ _RULE = {
     "quick": "VLQ: 0..2^17 dense, +-300 around every 2^k (k<=28) and +-3000 around 128^k, 20000 random < 2^28; "
              "write_Note: every spelling (<=2 accidentals) of every MIDI number 0..127, all 16 channels x 128 "
              "velocities, repeat 0..3; write_NoteContainer: sizes 0..6; write_Bar: all 30 keys x 18 meters, numerators "
-             "1..255, denominators 2^0..2^7, 41 values (18 integral, 23 rounding) alone and in pairs, every R/N/C "
+             "1..255, denominators 2^0..2^7, 42 values (18 integral, 24 rounding incl. ties and a near-tie) alone and in pairs, every R/N/C "
              "pattern of length <= 4, repeat 0..3; write_Track: R/N/C patterns x instrument x leading rest x repeat "
              "0..2, instrument 0..127 x channel 0..15, names of length 0..300, rest runs crossing 2^7/2^14 ticks; "
              "tempo bpm 4..1000; write_Composition: 1-4 tracks x 0-5 random bars, seeded",
@@ -513,6 +525,30 @@ def _vlq(R, MidiTrack, rnd, quick):
         if mt.delta_time != smf.vlq(v):
             R.fail("MidiTrack.set_deltatime", "variable-length-encoder-equals-standard-encoding",
                    "set_deltatime(%d) -> %r" % (v, mt.delta_time), v)
+
+
+def _key_events(R, MidiTrack):
+    """the key signature event of each of the 30 keys, at function level (set_key currently masks most of them)"""
+    from mingus.core.keys import Key
+    g = "MidiTrack.key_signature_event"
+    for key in KEYS30:
+        sf, mi = key_signature(key)
+        want = b"\x00\xff\x59\x02" + bytes([sf & 0xFF, mi])
+        R.case(g, key)
+        ok, got = R.guard(g, "key-signature-per-bar", key, lambda: MidiTrack().key_signature_event(key))
+        if ok and got != want:
+            R.fail(g, "key-signature-per-bar", "key_signature_event(%r) = %s, expected %s" % (key, got.hex(), want.hex()),
+                   key)
+        R.case("MidiTrack.set_key", key)
+        mt = MidiTrack()
+        mt.track_data = b""
+        ok, _ = R.guard("MidiTrack.set_key", "key-signature-per-bar", key, lambda: mt.set_key(Key(key)))
+        if ok and mt.track_data != want:
+            letter = key_signature(key[0].upper())
+            known = key not in LETTERS and mt.track_data == b"\x00\xff\x59\x02" + bytes([letter[0] & 0xFF, letter[1]])
+            R.fail("MidiTrack.set_key", "key-signature-per-bar", "set_key(Key(%r)) wrote %s, expected %s"
+                   % (key, mt.track_data.hex(), want.hex()), key,
+                   finding="midi-key-signature-first-letter" if known else None)
 
 
 def _run(cx, rnd, quick):
